@@ -48,6 +48,10 @@ JudgeLazy(B) ==
   LET lo == B.acts[1][1]  hi == B.acts[1][2]  s == B.s  o == B.o
       expAct == CASE B.op \in {"and", "or", "xor", "sub", "prune", "intersection", "union"} -> B.acts[1]
                   [] B.op = "lshift" -> B.acts[2]
+                  \* dense co-iterations: the range they walk - the whole shape, the first operand's active range, the requested range
+                  [] B.op = "coitershape" -> <<0, B.shape>>
+                  [] B.op = "coiteractiveshape" -> B.acts[1]
+                  [] B.op = "coiterrangeshape" -> <<1, 4>>
                   [] B.op = "project" -> IF B.hasiv = 1 THEN B.iv
                                          ELSE IF s > 0 THEN <<s * lo + o, s * (hi - 1) + o + 1>> ELSE <<s * (hi - 1) + o, s * lo + o + 1>>
   IN Fails(<<
